@@ -14,7 +14,7 @@ META = dict(
     functions=['tdma_sched.c: tdma_schedule', 'tdma_schedule_set', 'tdma_sched_advance', 'tdma_sched_execute', '_tdma_sched_bucket_sort', 'tdma_sched_reset', 'tdma_sched_flag_scan', 'wrap_bucket', 'tdma_end_set'],
     bounds=dict(quick='per-operation contracts from an ARBITRARY scheduler state (all item contents arbitrary, ring position symbolic 0..24, fill level of the addressed bucket symbolic 0..8): tdma_schedule with symbolic offset 0..255/params/int16 priority; '
                       'tdma_schedule_set for every set shape of <= 3 frames x <= 2 items with symbolic item fields and symbolic fill levels at ring position/offset pairs {(0,0),(23,1),(24,0),(22,3),(5,24),(24,26)}; advance; reset; execute with ring position in {0, 24} and each fill level 0..4, all priorities symbolic int16 and all parameters symbolic; 3-operation runs schedule(N)->N x advance->execute for N in {0,1,24}',
-                thorough='execute with fill levels 0..4 at every ring position and 5 at positions 0 and 24; sets of <= 3 frames x <= 3 items'),
+                thorough='execute with fill levels 0..4 at every ring position; sets of <= 3 frames x <= 3 items'),
     stubs=['item callbacks: a recording stub returning an arbitrary rc >= 0 (the property speaks of callbacks that report success) and not re-entering the scheduler (except in execute.reentrant: a callback that schedules one item for the current frame)', 'puts/printf/putchar: empty', 'struct l1s_state object with compiler-computed offsets'],
     outside=['callbacks that schedule further items while executing, other than one item for the current frame', 'FIQ/IRQ preemption of the scheduler', 'ARM code generation (host-triple IR of the same source)'],
     assumptions=['abstract ring A[k] = bucket[(cur+k) mod 25]; "an item scheduled N frames ahead runs exactly once, exactly N advances later" follows from the contracts by induction on the history: schedule adds to A[N] only, advance shifts A by one, execute runs and empties A[0] only, reset empties A[1..24]'],
@@ -23,7 +23,7 @@ META = dict(
 
 def jobs(tier, seed):
     out = [('schedule', 'c_schedule', {}), ('advance', 'c_advance', {}), ('reset', 'c_reset', {}), ('flag_scan', 'c_flag_scan', dict(cur=3))]
-    nmax = 5 if tier == 'thorough' else 4
+    nmax = 4          # fill level 5 is decided in about two minutes per ring position on an idle machine and times out under load: not claimed
     for cur in (range(25) if tier == 'thorough' else (0, 24)):
         for n in range(0, nmax + 1):
             if tier == 'thorough' and n > 4 and cur not in (0, 24): continue
@@ -42,6 +42,8 @@ def jobs(tier, seed):
             out.append(('run.N=%d.cur=%d' % (n, cur), 'c_run', dict(n=n, cur0=cur)))
     for k in (1, 2, 3):
         out.append(('gsmtime.events=%d' % k, 'c_gsmtime', dict(k=k)))
+    for k in (1, 2):
+        out.append(('gsmtime.reset.events=%d' % k, 'c_gsmtime', dict(k=k, reset=True)))
     out.append(('execute.reentrant', 'c_reentrant', {}))
     out.append(('validation', 'c_validate', dict(seed=seed)))
     return out
@@ -167,7 +169,7 @@ GSMTIME = os.path.join(cjob.FW, 'layer1/sched_gsmtime.c')
 HYPERFRAME = 2715648
 
 
-def c_gsmtime(hid, k, timeout_ms=60000):
+def c_gsmtime(hid, k, reset=False, timeout_ms=60000):
     """sched_gsmtime.c (one-shot sets at an absolute frame number): k events registered with symbolic frame numbers, then
     sched_gsmtime_execute(fn) for a symbolic fn: the TDMA scheduler gets exactly the sets of the events due at fn + 2 (each once,
     with its own parameter), the return value counts them, and an event that is not due - earlier or later - never keeps a due one
@@ -190,6 +192,31 @@ def c_gsmtime(hid, k, timeout_ms=60000):
     for i in range(k):
         out = ex.run('@sched_gsmtime', [Ptr(sets[i], C(0)), fns[i], p3s[i]], mem); mem = out.mem
         j.must_hold(ex, 'register[%d]:accepted' % i, [], out.ret.e == 0)
+    if reset:
+        # sched_gsmtime_reset() cancels everything pending: nothing is handed over afterwards, and all 16 event slots are free again
+        mem = ex.run('@sched_gsmtime_reset', [], mem).mem
+        try:
+            out = ex.run('@sched_gsmtime_execute', [fn], mem)
+        except core.Unsupported as e:
+            if 'unwinding bound' not in str(e): raise
+            out = None                                   # a list walk that does not end within 64 entries (there are 16 events)
+        j.witness(ex, [])
+        j.memory_obligations(ex, [])
+        j.must_hold(ex, 'after-reset:execute-terminates', [], z3.BoolVal(out is not None))
+        if out is None: return j.stats
+        j.must_hold(ex, 'after-reset:nothing-due', [], out.ret.e == 0)
+        j.must_hold(ex, 'after-reset:nothing-handed-over', [], z3.BoolVal(not [g for g, *_ in handed if g is not False]))
+        mem = out.mem
+        for i in range(16):
+            try: o2 = ex.run('@sched_gsmtime', [Ptr(sets[0], C(0)), C(100 + i), C(i)], mem)
+            except core.Unsupported as e:
+                if 'unwinding bound' not in str(e): raise
+                o2 = None
+            j.must_hold(ex, 'after-reset:slot-%d-free' % i, [], z3.BoolVal(False) if o2 is None else o2.ret.e == 0)
+            if o2 is None: break
+            mem = o2.mem
+        j.stats.extra['ir_steps'] = ex.steps
+        return j.stats
     out = ex.run('@sched_gsmtime_execute', [fn], mem)
     j.witness(ex, [])
     j.memory_obligations(ex, [])
@@ -547,12 +574,15 @@ def replay(body):
     if fn == 'c_gsmtime':
         import re
         k = sh['k']; fns = [i.get('event%d.fn' % x, 0) for x in range(k)]; p3s = [i.get('event%d.p3' % x, 0) for x in range(k)]; cur = i.get('fn', 0)
-        args = [k] + [v for pr in zip(fns, p3s) for v in pr] + [cur]
-        rc, out = cjob.run_native(GSMTIME_DRV % dict(src=GSMTIME), None, cjob.FW_INCS, args=args)
+        args = [k] + [v for pr in zip(fns, p3s) for v in pr] + [cur, 1 if sh.get('reset') else 0]
+        rc, out = cjob.run_native(GSMTIME_DRV % dict(src=GSMTIME), None, cjob.FW_INCS, args=args, timeout=20)
         if rc is None: return 2, out
         if rc != 0: return 1, 'REPRODUCED: native run failed/sanitizer: ' + out[-800:]
         got = sorted((int(a), int(b), int(c)) for a, b, c in re.findall(r'HANDED (-?\d+) (\d+) (\d+)', out))
-        want = sorted((x, 1, p3s[x]) for x in range(k) if fns[x] == cur + 2)
+        want = sorted((x, 1, p3s[x]) for x in range(k) if fns[x] == cur + 2) if not sh.get('reset') else []
+        if sh.get('reset'):
+            fr = re.search(r'FREE (\d+)', out)
+            if not fr or int(fr.group(1)) != 16: return 1, 'REPRODUCED on native sched_gsmtime.c: after reset only %s of 16 event slots can be used' % (fr.group(1) if fr else '?')
         n = int(re.search(r'EXEC (-?\d+)', out).group(1))
         return (0, 'native agrees') if got == want and n == len(want) else (1, 'REPRODUCED on native sched_gsmtime.c: events at %s, execute(%d) handed over %s (returned %d), due were %s' % (fns, cur, got, n, want))
     if fn == 'c_reentrant':
